@@ -603,7 +603,9 @@ where
 
                     match event {
                         Ok(Some(event)) => {
-                            if tx_send.receiver_count() > 0 {
+                            // The initial complete event is local to this subscription
+                            // and cannot be sent to remote subscribers of the mirror.
+                            if tx_send.receiver_count() > 0 && !matches!(&event, HashSetEvent::InitialComplete) {
                                 let _ = tx_send.send(event.clone());
                             }
 
@@ -612,7 +614,9 @@ where
                                 return;
                             }
 
-                            if inner.done {
+                            // A subscription taken after the collection was marked done is
+                            // done from the start, but still delivers its initial value.
+                            if inner.done && inner.complete {
                                 break;
                             }
                         }
